@@ -77,6 +77,8 @@ step budget (budget = buffer length + 1, so a run-away loop shows up as `term=0`
 import Mahotas.Model.Border
 import Mahotas.Model.C04
 import Mahotas.Generated.Tables
+import Mahotas.Model.C10Misc
+import Mahotas.Model.C10Surf
 namespace Mahotas.C10
 open Mahotas
 
@@ -841,6 +843,9 @@ def handle (a : Args) : String :=
   | "cwnb" =>
     let shape := a.nats "shape"; let bshape := a.nats "bshape"
     report2 (cwAccesses shape ((allPos bshape).map fun k => subPos k (bshape.map origin)))
-  | k => s!"error=unknown-kind-{k}"
+  | k =>
+    match Mahotas.C10Misc.handleMisc a with
+    | some r => r
+    | none => (Mahotas.C10Surf.handleSurf a).getD s!"error=unknown-kind-{k}"
 
 end Mahotas.C10
